@@ -120,6 +120,10 @@ def _fault_applicable(world, f):
                     return False
                 if f["kind"] in ("repeat_table", "data_outside_table", "delete_header") and not t["rows"]:
                     return False
+                if f["kind"] == "delete_table_end_at_eof" and s["tables"][-1]["type"] != f["table"]:
+                    return False
+        if f["kind"] == "duplicate_column" and f.get("pair") == "harmless" and not ("notes" in world["headers"][f["table"]] and "unique_id" in world["headers"][f["table"]]):
+            return False
         if f["kind"] == "asset_mismatch" and f["value"] not in world["assets"]:
             return False
         if f["kind"] in ("method_and_schedule", "bad_method_year", "unknown_method_in_schedule") and not world.get("methods"):
